@@ -390,3 +390,48 @@ def replay_chooser(trace):
         return n
 
     return choose
+
+
+def dfs_explore(run, bound, shard=0, nshards=1, free_bound=3, max_runs=400000, on_run=None):
+    """Stateless DFS over schedules: run(chooser) executes one complete schedule from the start and returns the
+    Scheduler (raising on an oracle failure). Enumerates every schedule with <= bound preemptions and <= free_bound
+    non-default choices at points where the running thread cannot continue. Work is split between shards by the step
+    index of the first deviation from the default (non-preemptive) schedule. Returns (runs, complete)."""
+    stack = [([], 0, 0)]
+    runs = 0
+    while stack:
+        prefix, used, free_used = stack.pop()
+        forced = dict(prefix)
+        branch = []
+        last_forced = prefix[-1][0] if prefix else 0
+
+        def chooser(step, cur, enabled, sched):
+            if step in forced:
+                n = forced[step]
+                if n not in enabled:
+                    raise Deadlock('prefix not replayable at step %d' % step)
+                return n
+            default = cur if cur in enabled else enabled[0]
+            if step > last_forced:
+                for n in enabled:
+                    if n == default:
+                        continue
+                    if cur in enabled:
+                        if used < bound:
+                            branch.append((step, n, 1, 0))
+                    elif free_used < free_bound:
+                        branch.append((step, n, 0, 1))
+            return default
+
+        top = not prefix
+        sched = run(chooser)
+        runs += 1
+        if on_run is not None and not (nshards > 1 and top and shard != 0):
+            on_run(sched)
+        for step, n, dp, df in branch:
+            if nshards > 1 and top and (step % nshards) != shard:
+                continue
+            stack.append((prefix + [(step, n)], used + dp, free_used + df))
+        if runs > max_runs:
+            return runs, False
+    return runs, True
